@@ -163,7 +163,7 @@ func Build(topo Topo, epic bool, perm func(n int) []int) (*Net, error) {
 	sim.Perm = perm
 	ctx := context.Background()
 	sim.Originate(ctx)
-	for round := 0; round < 6; round++ {
+	for round := 0; round < 70; round++ {
 		ok, rej := sim.Deliver(ctx)
 		if rej > 0 {
 			sim.Close()
